@@ -25,7 +25,7 @@ META = {
                     "time accepted iff decoded == instant at ms resolution (csep-csv, jma) or floor(instant to s) <= decoded <= instant (zmap, ndk, horus)"],
     "deciding": ["decode:csep-csv", "decode:zmap", "decode:jma-csv", "decode:ingv_horus", "decode:ndk"],
 }
-META["added"] = 'Added: 1-6 fraction digits, files without final newline, decimal-year ZMAP in the second half of the year, pre-1970 fractional CSEP times, the epoch instant and zero-valued coordinates / depths. shards under different process time zones. NDK CENTROID lines with touching fields; the same file path re-used by every case. exponent-notation longitude in the first CSV record, NDK depth types FIX/BDY.'
+META["added"] = 'Added: 1-6 fraction digits, files without final newline, decimal-year ZMAP in the second half of the year, pre-1970 fractional CSEP times, the epoch instant and zero-valued coordinates / depths. shards under different process time zones. NDK CENTROID lines with touching fields; the same file path re-used by every case. exponent-notation longitude in the first CSV record, NDK depth types FIX/BDY. coordinates at +-180 / +-90; HORUS coordinates accepted at print or float32 precision.'
 MANIFEST = {
     "technique": "boundary recorder on csep.load_catalog per format against per-format writer models; sys.monitoring witness on the readers' roll-over branches (a branch never reached makes the run inconclusive)",
     "level_text": "For each of the five text formats, generated files of well-formed records are decoded by the real readers; event count, order, coordinates, depth, magnitude and origin time (UTC, at the format's resolution) are compared with the writer model; roll-over spellings (seconds 60, minute 60, hour 24) and non-UTC offsets are generated on purpose and the witness confirms the roll-over branches executed.",
@@ -71,6 +71,10 @@ def gen_events(r, n, fmt):
             lon = 0.0
         elif z < 0.16:
             dep = 0.0
+        elif z < 0.20:
+            lon = float(r.choice([180.0, -180.0]))          # the antimeridian, written either way
+        elif z < 0.22:
+            lat = float(r.choice([90.0, -90.0]))
         if i == 0 and fmt == "csep-csv" and r.uniform() < 0.3:
             lon = float(r.choice([5e-05, -2.5e-05, 7.5e-06]))          # first record: longitude whose shortest text form uses exponent notation
         ev.append({"t": base, "lat": lat, "lon": lon, "depth": dep, "mag": float(numpy.round(r.uniform(1, 9), 2)),
@@ -256,7 +260,10 @@ def ex_file(ctx, fmt, n, seed, variant=0):
             tol = 1e-12
             got = (lat, lon, dep, mag)
             want = e[2:]
-            bad = [nm for nm, g, w_ in zip(("latitude", "longitude", "depth", "magnitude"), got, want) if not (abs(g - w_) <= tol * (1 + abs(w_)))]
+            # (HORUS: the reader documents single precision - the printed value or its float32 rounding are both the written value)
+            alt = want if fmt != "ingv_horus" else (ev[k]["lat"], ev[k]["lon"], ev[k]["depth"], ev[k]["mag"])
+            bad = [nm for nm, g, w_, a_ in zip(("latitude", "longitude", "depth", "magnitude"), got, want, alt)
+                   if not (abs(g - w_) <= tol * (1 + abs(w_)) or abs(g - a_) <= tol * (1 + abs(a_)))]
             if bad:
                 ctx.violate("decoded coordinates / depth / magnitude differ from the record", rc, observed={"record": k, "values": got}, expected={"values": want},
                             tags=dict(tags, clause="fields", fields=bad))
